@@ -17,70 +17,61 @@ func try(name string, f func() string) {
 	fmt.Printf("%-50s %s\n", name, f())
 }
 
-func semi(t string) string {
-	if t[len(t)-1] == '}' {
-		return t
-	}
-	return t + ";"
-}
-
 type Row struct {
-	K interface{}
+	K string
 	V string
+	L []*Row
+	C *Row
 }
 type Root struct {
 	L []*Row
+	C *Row
+	X string
+	N int
 }
 
 func main() {
-	for _, kt := range []struct{ typ, k1, k2, find string }{
-		{"union { type int32; type string; }", `1`, `"x"`, "l=x"},
-		{"bits { bit a; bit b; }", `"a"`, `"a b"`, "l=a%20b"},
-		{"binary", `"AQI="`, `"AwQ="`, "l=AwQ%3D"},
-		{"enumeration { enum one; enum two; }", `"one"`, `"two"`, "l=two"},
-		{"boolean", `true`, `false`, "l=false"},
-		{"decimal64 { fraction-digits 2; }", `1.5`, `2.25`, "l=2.25"},
-		{"identityref { base b; }", `"i1"`, `"i2"`, "l=i2"},
-		{"uint64", `1`, `18446744073709551615`, "l=18446744073709551615"},
-	} {
-		y := `module k { namespace "urn:k"; prefix k; revision 0; identity b; identity i1 { base b; } identity i2 { base b; } list l { key k; leaf k { type ` + semi(kt.typ) + ` } leaf v { type string; } } }`
-		m, err := parser.LoadModuleFromString(nil, y)
-		if err != nil {
-			fmt.Println("load", kt.typ, err)
-			continue
+	y := `module k { namespace "urn:k"; prefix k; revision 0;
+	 grouping g { list l { key k; leaf k { type string; } leaf v { type string; } uses g; } }
+	 grouping h { container c { leaf k { type string; } leaf v { type string; } uses h; } }
+	 uses g; uses h; leaf x { type string; } leaf n { type int32; } }`
+	m, err := parser.LoadModuleFromString(nil, y)
+	if err != nil {
+		panic(err)
+	}
+	doc := `{"l":[{"k":"a","v":"1","l":[{"k":"b","v":"2","l":[{"k":"c"}]}]}],"c":{"k":"1","c":{"k":"2","c":{"k":"3"}}},"x":"X","n":5}`
+	for _, be := range []string{"node-map", "reflect-map", "node-struct", "reflect-struct"} {
+		mk := func() *node.Browser {
+			var root node.Node
+			switch be {
+			case "node-map":
+				root = &nodeutil.Node{Object: map[string]interface{}{}}
+			case "reflect-map":
+				root = nodeutil.ReflectChild(map[string]interface{}{})
+			case "node-struct":
+				root = &nodeutil.Node{Object: &Root{}}
+			case "reflect-struct":
+				root = nodeutil.ReflectChild(&Root{})
+			}
+			b := node.NewBrowser(m, root)
+			src, _ := nodeutil.ReadJSON(doc)
+			if err := b.Root().UpsertFrom(src); err != nil {
+				fmt.Println(be, "load:", err)
+			}
+			return b
 		}
-		doc := `{"l":[{"k":` + kt.k1 + `,"v":"1"},{"k":` + kt.k2 + `,"v":"2"}]}`
-		for _, be := range []string{"node-map", "reflect-map", "node-struct", "reflect-struct"} {
-			try(be+" "+(kt.typ+"        ")[:8], func() string {
-				var root node.Node
-				switch be {
-				case "node-map":
-					root = &nodeutil.Node{Object: map[string]interface{}{}}
-				case "reflect-map":
-					root = nodeutil.ReflectChild(map[string]interface{}{})
-				case "node-struct":
-					root = &nodeutil.Node{Object: &Root{}}
-				case "reflect-struct":
-					root = nodeutil.ReflectChild(&Root{})
-				}
-				b := node.NewBrowser(m, root)
-				src, _ := nodeutil.ReadJSON(doc)
-				if err := b.Root().UpsertFrom(src); err != nil {
-					return "load: " + err.Error()
-				}
-				s, err := b.Root().Find(kt.find)
+		try(be+" read", func() string { return fmt.Sprint(nodeutil.WriteJSON(mk().Root())) })
+		for _, del := range []string{"x", "n", "l=a/l=b", "l=a/l=b/v", "c/c", "c/c/k", "l=a/l=b/l=c", "l"} {
+			try(be+" delete "+del, func() string {
+				b := mk()
+				s, err := b.Root().Find(del)
 				if err != nil || s == nil {
-					return fmt.Sprint("find: ", s, err)
-				}
-				one, err := nodeutil.WriteJSON(s)
-				if err != nil {
-					return "read: " + err.Error()
+					return fmt.Sprint("find ", s, err)
 				}
 				if err := s.Delete(); err != nil {
 					return "delete: " + err.Error()
 				}
-				all, err := nodeutil.WriteJSON(b.Root())
-				return fmt.Sprint(one, " ; after delete ", all, err)
+				return fmt.Sprint(nodeutil.WriteJSON(b.Root()))
 			})
 		}
 	}
